@@ -130,11 +130,13 @@ CHECKS["C07"] = dict(
 CHECKS["C08"] = dict(
     text="Theorems about the Hexital model: a member on its own manager behaves exactly like the standalone indicator with the same "
          "manager configuration (values and exceptions); members sharing a manager never alter candle OHLCV/timestamps nor each "
-         "other's entries (engine frame theorem, all 27 kinds). Falsifier: member vs standalone twin fed the same schedule, object/"
+         "other's entries (engine frame theorem, all 27 kinds). Tie: the Hexital model run against hexital.Hexital (check_hx). "
+         "Falsifier: member vs standalone twin fed the same schedule, object/"
          "dict/settings forms, Hexital-level timeframe/fill/lifespan/HA, base candles unaltered.",
-    note="The Hexital model is not executed against the code (no correspondence of its own); equality of several members sharing one "
+    note="The Hexital model (construction incl. own-timeframe seeding, append and all maintenance operations) is executed against "
+         "hexital.Hexital bit for bit (check_hx); equality of several members sharing one "
          "manager with their standalone twins is decided by the falsifier. Known findings K2 (lifespan + own timeframe seeded from trimmed candles) and K3 (Hexital timeframe + fill: own timeframe seeded from filled candles). Axioms: none.",
-    technique="Coq proof (engine frame theorem, single-member refinement) + falsifier", design="5/C08")
+    technique="Coq proof (engine frame theorem, single-member refinement) + vm_compute correspondence of the Hexital model + falsifier", design="5/C08")
 CHECKS["C09"] = dict(
     text="Theorems over the reals: no step of the TR, ATR, HLA, OBV, VWAP, EMA recurrence can raise (every divisor non-zero), RSI never "
          "divides by a zero loss. " + ENGINE_TIE + "Falsifier: degenerate regimes (flat, monotone, equal closes, tiny/micro moves, zero "
@@ -152,15 +154,17 @@ CHECKS["C13"] = dict(
     text="Theorem (frame property, by induction over the engine interpreter and case analysis of all 27 _calculate_reading models): "
          "calculate, calculate_index (+/- index), managed set_reading and every reading computation leave the candles' number, "
          "timestamps, OHLCV, clean values, tags and every dictionary entry not named in the indicator's own tree exactly as they were; "
-         "purge removes exactly the tree's entries. Falsifier: B alone vs with A in both orders, and purge/recalculate/remove of A at "
-         "the end and in the middle of the stream, incl. targeted pairs (substring names, shared TR helper, BBANDS helpers).",
+         "purge removes exactly the tree's entries. Tie: the Hexital model (two members, the operations aimed at one of them) run "
+         "against hexital.Hexital on the same histories (check_hx). Falsifier: B alone vs with A in both orders, and purge/recalculate/"
+         "remove of A at the end and in the middle of the stream, incl. targeted pairs (substring names, X / X_<suffix> names, helper "
+         "families, BBANDS helpers) and members on one collapsing timeframe.",
     note="The theorem shows A never writes B's entries; that B's computation does not read A's entries (input independence) is decided "
-         "by the falsifier. Indicators sharing the parameterless helper 'TR' share that entry by design. Axioms: none.",
-    technique="Coq proof (frame theorem over the engine) + falsifier", design="5/C13")
+         "by the falsifier. Axioms: none.",
+    technique="Coq proof (frame theorem over the engine) + vm_compute correspondence of the Hexital model + falsifier", design="5/C13")
 CHECKS["C14"] = dict(
     text="Theorems: purge removes every entry of the indicator tree at any depth and nothing else (timestamps, OHLCV, other entries "
          "untouched); calculate() is idempotent for leaf indicators with discharged obligations. " + ENGINE_TIE +
-         "(incl. calculate/recalculate/purge sequences). Falsifier: idempotence, recalculate fixpoint, purge exactness, calculate_index "
+         "(incl. calculate/calculate_index/recalculate/purge sequences; every operation program also runs on the Hexital model, check_hx). Falsifier: idempotence, recalculate fixpoint, purge exactness, calculate_index "
          "on computed indices (+/-), and random programs over append/calculate/purge/recalculate/calculate_index/add/remove on Hexitals "
          "(also members sharing helpers) ending in calculate() = batch state.",
     note="Convergence of arbitrary operation programs to the batch state is decided by the falsifier. Axioms: none.",
